@@ -15,7 +15,7 @@ PYD = "gallia.pydantic_argparse.utils.pydantic"
 PARSER = "gallia.pydantic_argparse.argparse.parser"
 
 
-def merge_order(fn: FuncInfo, target_text: str) -> list[str] | None:
+def merge_order(fn: FuncInfo, target_text: str, m: Model) -> list[str] | None:
     """Order in which source maps are merged into the value stored at `target_text` (later entries win)."""
     env: dict[str, list[str]] = {}
     def val(e: ast.expr) -> list[str] | None:
@@ -50,7 +50,7 @@ def merge_order(fn: FuncInfo, target_text: str) -> list[str] | None:
             if v is None:
                 return None
             env[tgt] = env.get(tgt, [tgt]) + v
-        elif isinstance(st, ast.Assign) and ast.unparse(st.targets[0]) == target_text:
+        elif isinstance(st, ast.Assign) and m.eqm(fn, st.targets[0], target_text):
             result = val(st.value)
     return result
 
@@ -66,7 +66,7 @@ def run(m: Model, r: Report, tier: str) -> None:
 
     # ---------------------------------------------------------------- R1
     cp = m.require_function(f"{CLI}._create_parser_from_command")
-    order = merge_order(cp, "extra_defaults[model_type]")
+    order = merge_order(cp, "extra_defaults[model_type]", m)
     names = {}
     for st in cp.node.body:
         if isinstance(st, ast.Assign) and isinstance(st.targets[0], ast.Name) and isinstance(st.value, ast.Call):
@@ -122,27 +122,50 @@ def run(m: Model, r: Report, tier: str) -> None:
     # ---------------------------------------------------------------- R3 / R4 / R7
     gb = m.require_class(f"{CFG}.GalliaBaseModel")
     fc, fe = gb.methods["attributes_from_config"], gb.methods["attributes_from_env"]
-    def filt(f):
-        return [ast.unparse(n.test) for n in walk_no_nested(f.node) if isinstance(n, ast.If) and "isinstance(info" in ast.unparse(n.test)]
-    r.check(filt(fc) == filt(fe) == ["isinstance(info, ConfigArgFieldInfo)"], "R3", f"{gb.qualname}#same-filter", f"file filter {filt(fc)} vs env filter {filt(fe)}", loc=gb.loc)
+    def field_loop(f: FuncInfo, what: str) -> tuple[ast.For, dict[str, str]]:
+        """The loop over the model's fields and the roles of its two loop variables (attribute name, field info)."""
+        for n in walk_no_nested(f.node):
+            if isinstance(n, ast.For) and isinstance(n.target, ast.Tuple) and len(n.target.elts) == 2 and all(isinstance(e, ast.Name) for e in n.target.elts) \
+                    and ast.unparse(n.iter) == what:
+                return n, {n.target.elts[0].id: "NAME", n.target.elts[1].id: "INFO"}
+        raise AnalysisError(f"{f.qualname}: loop `for name, info in {what}` not found")
+
     isc = gb.methods["__init_subclass__"]
-    reg_key = [ast.unparse(n.value) for n in ast.walk(isc.node) if isinstance(n, ast.Assign) and ast.unparse(n.targets[0]) == "config_attribute"]
-    look_key = [ast.unparse(n.value) for n in ast.walk(fc.node) if isinstance(n, ast.Assign) and ast.unparse(n.targets[0]) == "config_attribute"]
-    norm = lambda s: s.replace("{attribute}", "{NAME}").replace("{name}", "{NAME}").replace("else attribute", "else NAME").replace("else name", "else NAME")
-    r.check(len(reg_key) == 1 and len(look_key) == 1 and norm(reg_key[0]) == norm(look_key[0]), "R4", f"{gb.qualname}#key-format",
+    lc, rc = field_loop(fc, "cls.model_fields.items()")
+    le, re_ = field_loop(fe, "cls.model_fields.items()")
+    li, ri = field_loop(isc, "vars(cls).items()")
+
+    def filt(f, loop, roles):
+        return [m.mtext(f, n.test, roles) for n in loop.body if isinstance(n, ast.If) and "isinstance(INFO" in m.mtext(f, n.test, roles)]
+    r.check(filt(fc, lc, rc) == filt(fe, le, re_) == ["isinstance(INFO, ConfigArgFieldInfo)"], "R3", f"{gb.qualname}#same-filter",
+            f"file filter {filt(fc, lc, rc)} vs env filter {filt(fe, le, re_)}", loc=gb.loc)
+
+    def key_defs(f, loop, roles) -> tuple[list[str], dict[str, str]]:
+        """Assignments of a plain local from an (f-)string built from the loop variables: the lookup / registry key."""
+        out, r2 = [], dict(roles)
+        for n in ast.walk(loop):
+            if isinstance(n, ast.Assign) and isinstance(n.targets[0], ast.Name) and any(isinstance(x, ast.JoinedStr) for x in ast.walk(n.value)) \
+                    and "NAME" in m.mtext(f, n.value, roles):
+                out.append(m.mtext(f, n.value, roles))
+                r2[n.targets[0].id] = "KEY"
+        return out, r2
+    reg_key, ri = key_defs(isc, li, ri)
+    look_key, rc = key_defs(fc, lc, rc)
+    r.check(len(reg_key) == 1 and len(look_key) == 1 and reg_key[0] == look_key[0], "R4", f"{gb.qualname}#key-format",
             f"registry key `{reg_key}` vs lookup key `{look_key}`: the template would list options under keys the loader does not read", loc=gb.loc)
-    env_key = [ast.unparse(n.value) for n in ast.walk(fe.node) if isinstance(n, ast.Assign) and ast.unparse(n.targets[0]) == "config_attribute"]
-    r.check(env_key == ["f'GALLIA_{name.upper()}'"], "R4", f"{fe.qualname}#env-name", f"environment variable name is {env_key}", loc=fe.loc)
+    env_key, re_ = key_defs(fe, le, re_)
+    r.check(env_key == ["f'GALLIA_{NAME.upper()}'"], "R4", f"{fe.qualname}#env-name", f"environment variable name is {env_key}", loc=fe.loc)
     tp = m.require_function(f"{CLI}.template")
     ts = ast.unparse(tp.node)
     r.check("GalliaBaseModel.registry().items()" in ts and "'.'.join(tmp[:-1])" in ts and "tmp[-1]" in ts and "f'[{group}]\\n'" in ts, "R4", f"{tp.qualname}#groups",
             "the template must print every registry key as [section] / attribute", loc=tp.loc)
     gv = m.require_function(f"{CONF}.Config.get_value")
     rets = [ast.unparse(n.value) for n in walk_no_nested(gv.node) if isinstance(n, ast.Return) and n.value is not None]
-    r.check("val if val is not None else default" in rets and all("or default" not in x for x in rets), "R7", f"{gv.qualname}#falsy-values",
+    mrets = [m.mtext(gv, n.value) for n in walk_no_nested(gv.node) if isinstance(n, ast.Return) and n.value is not None]
+    r.check("_L if _L is not None else default" in mrets and all("or default" not in x for x in rets), "R7", f"{gv.qualname}#falsy-values",
             f"get_value returns {rets}: values such as false, 0 or '' in gallia.toml must not be treated as absent", loc=gv.loc)
-    r.check("(value := config.get_value(config_attribute)) is not None" in ast.unparse(fc.node), "R7", f"{fc.qualname}#present-test", "file values must be tested with `is not None`", loc=fc.loc)
-    r.check("(value := os.getenv(config_attribute)) is not None" in ast.unparse(fe.node), "R7", f"{fe.qualname}#present-test", "env values must be tested with `is not None`", loc=fe.loc)
+    r.check("(_L := config.get_value(KEY)) is not None" in m.mtext(fc, None, rc), "R7", f"{fc.qualname}#present-test", "file values must be tested with `is not None`", loc=fc.loc)
+    r.check("(_L := os.getenv(KEY)) is not None" in m.mtext(fe, None, re_), "R7", f"{fe.qualname}#present-test", "env values must be tested with `is not None`", loc=fe.loc)
 
     # ---------------------------------------------------------------- R5
     n_idem = 0
@@ -176,7 +199,7 @@ def run(m: Model, r: Report, tier: str) -> None:
     ve = [f for f in m.require_class(f"{PARSER}.ArgumentParser").methods.values() if "extra_defaults[model][argument][0]" in ast.unparse(f.node)]
     r.check(len(ve) == 1 and "default of {argument} from" in ast.unparse(ve[0].node), "R6", f"{PARSER}.ArgumentParser#names-source",
             "validation errors of env/file defaults must name their source", loc=ve[0].loc if ve else "")
-    r.check("f'{source} ({info.config_section}:{name})'" in ast.unparse(fc.node) and "f'environment variable ({config_attribute})'" in ast.unparse(fe.node), "R6",
+    r.check("f'{source} ({INFO.config_section}:{NAME})'" in m.mtext(fc, None, rc) and "f'environment variable ({KEY})'" in m.mtext(fe, None, re_), "R6",
             f"{gb.qualname}#source-labels", "each extra default must carry a label of its source", loc=gb.loc)
 
     r.assumptions += ["argparse: explicit command-line values override parser defaults; pydantic validation semantics"]
